@@ -317,6 +317,39 @@ def observe(fn, args: dict, rule: Rule, scratch: Path | None):
 
 
 
+
+def translate_casts(repo: Path) -> str:
+    """FURB123's FUNC_NAME_MAPPING as a Coq literal (fail-closed)."""
+    from ..translate.catalogue import TranslateError
+    src = (repo / "refurb" / "checks" / "readability" / "no_unnecessary_cast.py").read_text("utf8")
+    tree = ast.parse(src)
+    tbl = None
+    for n in tree.body:
+        if isinstance(n, ast.Assign) and any(isinstance(t, ast.Name) and t.id == "FUNC_NAME_MAPPING" for t in n.targets) and isinstance(n.value, ast.Dict):
+            tbl = n.value
+    if tbl is None:
+        raise TranslateError("FUNC_NAME_MAPPING literal not found")
+    use = "if found := FUNC_NAME_MAPPING.get(fullname)"
+    if use not in src or "suffix, *expected_types = found" not in src or "`{expr}{suffix}`" not in src:
+        raise TranslateError("FURB123 no longer uses FUNC_NAME_MAPPING as (suffix, *expected types) appended to the operand")
+    rows = []
+    for k, v in zip(tbl.keys, tbl.values):
+        if not (isinstance(k, ast.Constant) and isinstance(k.value, str) and isinstance(v, ast.Tuple) and v.elts and isinstance(v.elts[0], ast.Constant)
+                and isinstance(v.elts[0].value, str)):
+            raise TranslateError(f"unrecognised FUNC_NAME_MAPPING entry {ast.unparse(k)}: {ast.unparse(v)}")
+        exp = []
+        for e in v.elts[1:]:
+            if isinstance(e, ast.Name):
+                exp.append(e.id)
+            elif isinstance(e, ast.Constant) and isinstance(e.value, str):
+                exp.append(e.value)
+            else:
+                raise TranslateError(f"unrecognised expected type {ast.unparse(e)}")
+        rows.append(f"({coq.coq_str(k.value)}, {coq.coq_str(v.elts[0].value)}, {coq.coq_list([coq.coq_str(x) for x in exp])})")
+    return ("From Lib Require Import Base.\nOpen Scope list_scope.\n"
+            f"Definition casts : list (string * string * list string) := {coq.coq_list(rows)}.\n")
+
+
 # ------------------------------------------------------------------ neighbourhood of each idiom
 _CMP = {ast.Lt: [ast.Gt, ast.LtE], ast.Gt: [ast.Lt, ast.GtE], ast.LtE: [ast.GtE, ast.Lt], ast.GtE: [ast.LtE, ast.Gt], ast.Eq: [ast.NotEq], ast.NotEq: [ast.Eq],
         ast.Is: [ast.IsNot], ast.IsNot: [ast.Is], ast.In: [ast.NotIn], ast.NotIn: [ast.In]}
@@ -679,7 +712,12 @@ def run(ctx: Ctx) -> None:
     ctx.rule("every rule instance of the table x the product (sampled to the budget) of its operands' value lists (ints incl. big, floats incl. NaN/+-0.0/inf, strings sharing prefixes/suffixes, "
              "lists with ties, empty containers, a scratch directory for file-system rules); observables: value+type or exception class, operands after the call, stdout, aliasing, directory tree; "
              "non-trivial = environment where the original does not raise; distinct by (rule instance, environment)")
-    b = coq.compile_props(ctx, {}, ["C01", "C01Heap"])
+    gen = {}
+    try:
+        gen["GenCasts"] = translate_casts(REPO)
+    except Exception as e:  # noqa: BLE001
+        ctx.obligation("translate FUNC_NAME_MAPPING (FURB123)", False, str(e))
+    b = coq.compile_props(ctx, gen, (["GenCasts"] if gen else []) + ["C01", "C01Heap"] + (["C01Tables"] if gen else []))
     coq.record_build(ctx, b)
     from refurb.main import run_refurb
     from refurb.settings import Settings
@@ -829,4 +867,4 @@ def run(ctx: Ctx) -> None:
         heap_tie(ctx, derived)
     finally:
         shutil.rmtree(td, ignore_errors=True)
-    ctx.resolve_broken({}, b.first_error)
+    ctx.resolve_broken({"furb123_table_sound": "semantics:FURB123", "furb123_table_keys_unique": "semantics:FURB123", "translate FUNC_NAME_MAPPING (FURB123)": "semantics:FURB123"}, b.first_error)
